@@ -126,10 +126,20 @@ def _allocs(rng, parts):
         if rng.random() < 0.3:
             part = rng.choice(parts)        # a reload may find the allocation of this name in another partition
         part = part or '_default'
-        out.append({'name': 't%d/a' % i, 'partition': part, 'rank': rng.choice([100, 100, 50]),
-                    'memory': rng.choice(['0G', '4G']), 'cpu': '100%', 'disk': '4G',
-                    'traits': rng.choice([[], [], [], ['t1'], ['t2'], ['t3']]),
-                    'assignments': [{'pattern': 'p%d.*' % (i + 1), 'priority': rng.choice([1, 10, 50])}]})
+        if rng.random() < 0.25:
+            # the tenant has a record of its own (no assignments), listed before its allocation
+            out.append({'name': 't%d' % i, 'partition': part, 'rank': rng.choice([10, 70]),
+                        'rank_adjustment': rng.choice([0, 5]), 'max_utilization': rng.choice([1, 3]),
+                        'memory': '1G', 'cpu': '50%', 'disk': '1G', 'traits': [], 'assignments': []})
+        rec = {'name': 't%d/a' % i, 'partition': part, 'rank': rng.choice([100, 100, 50]),
+               'memory': rng.choice(['0G', '4G']), 'cpu': '100%', 'disk': '4G',
+               'traits': rng.choice([[], [], [], ['t1'], ['t2'], ['t3']]),
+               'assignments': [{'pattern': 'p%d.*' % (i + 1), 'priority': rng.choice([1, 10, 50])}]}
+        if rng.random() < 0.3:
+            rec['rank_adjustment'] = rng.choice([0, 10])
+        if rng.random() < 0.2:
+            rec['max_utilization'] = rng.choice([1, 2])
+        out.append(rec)
     return out
 
 
@@ -1075,6 +1085,58 @@ def _install(w):
             return r
         return _handle_servers_event
     patch(Master, '_handle_servers_event', mk_servers_event)
+
+    # ---- load_allocations: an allocation has the attributes of its own record (LoaderDecode.allocAfter) ---------
+    w.alloc_names = {}
+
+    def _alloc_nid(name):
+        return w.alloc_names.setdefault(name, len(w.alloc_names) + 1)
+
+    def _find_alloc(self, partition, name):
+        try:
+            a_ = self.cell.partitions[partition].allocation
+        except Exception:  # pylint: disable=broad-except
+            return None
+        import re as _re1
+        for part in _re1.split('[/:]', name):
+            a_ = a_.sub_allocations.get(part)
+            if a_ is None:
+                return None
+        return a_
+
+    def _attrs_s(a_):
+        if a_ is None:
+            return None
+        cap = '~' if a_.max_utilization == float('inf') else '%d' % int(round(a_.max_utilization * 1000))
+        return '%d:%d:%s:%s' % (a_.rank, a_.rank_adjustment, cap, ','.join('%d' % int(x) for x in a_.reserved))
+
+    def mk_load_allocations(orig):
+        def load_allocations(self):
+            if not _live(self):
+                return orig(self)
+            data = self.backend.get_default(z.ALLOCATIONS, default={}) or []
+            recs, before = [], []
+            for obj in data:
+                nid = _alloc_nid((obj.get('partition'), obj['name']))
+                res = w.loader_mod.resources(obj)
+                mu = obj.get('max_utilization')
+                recs.append('%d:%d:%s:%s:%s' % (nid, obj['rank'],
+                                                '~' if obj.get('rank_adjustment') is None else '%d' % obj['rank_adjustment'],
+                                                '~' if mu is None else '%d' % int(round(mu * 1000)),
+                                                ','.join('%d' % int(x) for x in res)))
+                b_ = _attrs_s(_find_alloc(self, obj.get('partition'), obj['name']))
+                if b_ is not None and not any(x.startswith('%d:' % nid) for x in before):
+                    before.append('%d:%s' % (nid, b_))
+            r = orig(self)
+            after = sorted({'%d:%s' % (_alloc_nid((o_.get('partition'), o_['name'])),
+                                       _attrs_s(_find_alloc(self, o_.get('partition'), o_['name']))) for o_ in data},
+                           key=lambda t: int(t.split(':')[0]))
+            if recs:
+                w.run.op('falloc %s %s' % (';'.join(recs), ';'.join(before) or '-'), ';'.join(after))
+                w.stats['fn:load_allocations'] += 1
+            return r
+        return load_allocations
+    patch(Loader, 'load_allocations', mk_load_allocations)
 
     # ---- the trait code (TmVerif.Traits): per-call correspondence of traits.create_code / traits.encode ----
     tr_mod = w.loader_mod.traits
